@@ -402,6 +402,9 @@ func (e *Evaluator) runHook(fn *ssa.Function, fr *frame, hook func(*ssa.Call, an
 								u.elem = ld
 							}
 						}
+						if ix, ok := in.(*ssa.Index); ok && ix.X == lp.Over {
+							u.elem = ix // element of an array value
+						}
 					}
 				}
 				active[b] = u
